@@ -946,8 +946,9 @@ fn self_check(bat: &Battery, qs: &[Q]) -> Result<(), String> {
     let mut store = adblock::resources::ResourceStorage::default();
     for r in resources() {
         let name = r.name.clone();
-        if store.add_resource(r).is_err() {
-            return Err(format!("battery resource {:?} is rejected by the store", name));
+        let on_purpose = vh::net::deliberately_rejected(&r);
+        if store.add_resource(r).is_err() != on_purpose {
+            return Err(format!("battery resource {:?}: rejected by the store = {}, expected {}", name, !on_purpose, on_purpose));
         }
     }
     let empty = build(&[], true, false, 1)?;
